@@ -90,6 +90,13 @@ void vp_harness(void) {
 	int r1 = bidib_start_pointer(rd, wr, "cfg", f1);
 	__CPROVER_assert(r1 == 0 || r1 == 1, "C16.start.returns_0_or_1");
 	__CPROVER_assert(r1 == 0 || !bidib_running, "C16.start.failed_start_leaves_the_library_stopped");
+	if (r1 == 0) {
+		/* start while running - with valid or with rejected arguments - does nothing: no thread created or joined, session stays up */
+		unsigned c0 = g_created_count, j0 = g_joined_count; _Bool bad_args; unsigned f3;
+		int r3 = bidib_start_pointer(bad_args ? NULL : rd, wr, "cfg", f3);
+		__CPROVER_assert(bidib_running && g_created_count == c0 && g_joined_count == j0, "C16.start.start_while_running_does_nothing (also when its arguments are rejected)");
+		__CPROVER_assert(r3 == (bad_args ? 1 : 0), "C16.start.start_while_running_reports_only_its_own_arguments");
+	}
 	bidib_stop();
 	for (int k = 0; k < NT; k++) __CPROVER_assert(!g_live[k], "C16.sessions.no_thread_survives_the_first_stop");
 	_Bool cfg2, comm2; g_cfg_bad = cfg2; g_comm_ok = comm2;
